@@ -24,8 +24,9 @@ def _stored(fn: ast.FunctionDef) -> set[str]:
 
 
 class _Fold(ast.NodeTransformer):
-    def __init__(self, env: dict):
+    def __init__(self, env: dict, unroll: bool = False):
         self.env = env
+        self.unroll = unroll
         self.changed = False
 
     # ---- expressions
@@ -135,6 +136,33 @@ class _Fold(ast.NodeTransformer):
         n.iter = self.visit(n.iter)
         n.body = self._block(n.body) or [ast.copy_location(ast.Pass(), n)]
         n.orelse = self._block(n.orelse)
+        # `for x in (a, b): body`  ->  body[x:=a]; body[x:=b]   (short literal sequences of plain names/constants)
+        if self.unroll and isinstance(n.iter, (ast.Tuple, ast.List)) and 1 <= len(n.iter.elts) <= 4 and not n.orelse \
+                and isinstance(n.target, ast.Name) and all(isinstance(e, (ast.Name, ast.Constant)) for e in n.iter.elts):
+            x = n.target.id
+            leaves = False
+            for b in n.body:
+                for m in ast.walk(b):
+                    if isinstance(m, (ast.Break, ast.Continue, ast.FunctionDef, ast.Lambda)):
+                        leaves = True
+                    if isinstance(m, ast.Name) and m.id == x and isinstance(m.ctx, (ast.Store, ast.Del)):
+                        leaves = True
+            if not leaves:
+                out = []
+                for e in n.iter.elts:
+                    for b in n.body:
+                        c = copy.deepcopy(b)
+                        for m in ast.walk(c):
+                            for fld, v in list(ast.iter_fields(m)):
+                                if isinstance(v, ast.Name) and v.id == x and isinstance(v.ctx, ast.Load):
+                                    setattr(m, fld, copy.deepcopy(e))
+                                elif isinstance(v, list):
+                                    for i, y in enumerate(v):
+                                        if isinstance(y, ast.Name) and y.id == x and isinstance(y.ctx, ast.Load):
+                                            v[i] = copy.deepcopy(e)
+                        out.append(c)
+                self.changed = True
+                return out
         return n
 
     def visit_With(self, n: ast.With):
@@ -156,13 +184,13 @@ class _Fold(ast.NodeTransformer):
         return n
 
 
-def specialise(fn: ast.FunctionDef, env: dict) -> ast.FunctionDef:
+def specialise(fn: ast.FunctionDef, env: dict, unroll: bool = False) -> ast.FunctionDef:
     fn = copy.deepcopy(fn)
     stored = _stored(fn)
     env = {k: v for k, v in env.items() if k not in stored}
     # constant locals that depend only on the specialised values become constants too (e.g. a mode string)
     for _ in range(6):
-        f = _Fold(env)
+        f = _Fold(env, unroll)
         fn = f.visit(fn)
         if not f.changed:
             break
